@@ -299,3 +299,33 @@ def c20g(ctx):
         d = defs.of(ts[0].args[0].id)
         ok = len(d) == 1 and is_call(d[0][0], 'environ.get') and const_value(d[0][0].args[0]) == 'HTTP_IF_MODIFIED_SINCE'
     ctx.check(ok, 'Response.make_conditional:ims-source', 'the date compared is parse_httpdate(If-Modified-Since header)', mc)
+
+
+@rule('C20.h', floor=3)
+def c20h(ctx):
+    """HTTP dates are GMT on both sides; a merged image is cacheable only if every layer image is"""
+    pd = ctx.fn('mapproxy/util/times.py:parse_httpdate')
+    conv = [x for x in pd.walk() if isinstance(x, ast.Call) and simple_name(x) in ('timegm', 'mktime')]
+    ok = bool(conv) and all(simple_name(x) == 'timegm' for x in conv)
+    ctx.check(ok, 'parse_httpdate:gmt', 'If-Modified-Since is converted with calendar.timegm (HTTP dates are GMT)', pd,
+              fail='parse_httpdate interprets the GMT date of the client as local time (mktime): west of UTC a tile rewritten hours later is answered 304')
+    fd = ctx.fn('mapproxy/util/times.py:format_httpdate')
+    ok = any(is_call(x, 'format_date_time') for x in fd.walk())
+    ctx.check(ok, 'format_httpdate:gmt', 'Last-Modified is written with wsgiref format_date_time (GMT)', fd)
+    cands = [f for f in ctx.repo.fns_in('mapproxy/image/merge.py:LayerMerger.merge') if any(is_call(x, 'mask_image') for x in f.walk())]
+    if not cands:
+        raise Undecided('LayerMerger.merge not found')
+    mg = cands[0]
+    g = mg.cfg
+    defs = Defs(mg.node)
+    res = [x for x in mg.walk() if is_call(x, 'ImageSource') and keyword(x, 'cacheable') is not None]
+    ok = bool(res) and all(unparse(keyword(x, 'cacheable')) == 'cacheable' for x in res)
+    falses = g.find_stmts(lambda s: isinstance(s, ast.Assign) and unparse(s.targets[0]) == 'cacheable' and const_value(s.value, 1) is False)
+    form_loop = bool(falses) and all(g.guarded(n, lambda at: at.op is None and unparse(at.expr).endswith('.cacheable') and 'self' not in unparse(at.expr), False) and
+                                     enclosing(g.stmt[n], ast.For) is not None and unparse(enclosing(g.stmt[n], ast.For).iter) == 'self.layers' for n in falses)
+    vals = [v for v, sel in defs.of('cacheable') if sel is None]
+    form_all = any(contains(v, lambda x: is_call(x, 'all')) for v in vals) and not any(contains(v, lambda x: is_call(x, 'any')) for v in vals)
+    start = any(unparse(v) == 'self.cacheable' or 'self.cacheable' in unparse(v) for v in vals)
+    ctx.check(ok and (form_loop or form_all) and start, 'LayerMerger.merge:cacheable-iff-all-layers',
+              'the merged image is cacheable only if the merger is and every layer image is (one uncacheable layer makes the result uncacheable)', mg,
+              fail='a merged image containing an uncacheable (error fill) layer is reported cacheable: it is stored and sent with public cache headers')
